@@ -1,7 +1,7 @@
 SPECIFICATION Spec
 CONSTANTS
-  WorldIx = 8
-  MaxLen = 4
+  WorldIx = 28
+  MaxLen = 5
 INVARIANT GatedImpliesFeasible
 INVARIANT Exactness
 CHECK_DEADLOCK FALSE
